@@ -89,9 +89,11 @@ def check_case(ctx, case):
             members = [build(d) for d in case['obs']]
             ac = case['all_configs']
             via = case['via']
+            # the flag as users hand it over: a python bool, a numpy bool (result of a comparison / np.any), an int
+            ac_arg = {None: ac, 'np': np.bool_(ac), 'int': int(ac), 'npany': np.any([ac])}[case.get('ac_form')]
             try:
                 if via == 'list':
-                    res = pe.reweight(w, members, all_configs=ac)
+                    res = pe.reweight(w, members, all_configs=ac_arg)
                 elif via == 'method':
                     res = [m.reweight(w) for m in members]      # the method has no all_configs argument
                     ac = False
@@ -99,7 +101,7 @@ def check_case(ctx, case):
                     # Corr: all members must share layout; use the first member for every timeslice scaled
                     base = members[0]
                     cc = pe.Corr([base, None, base * 2.0 + 1.0])
-                    rc = cc.reweight(w, all_configs=ac)
+                    rc = cc.reweight(w, all_configs=ac_arg)
                     if rc.content[1] is not None:
                         probs.append(('violation', 'corr-reweight-definedness', 'undefined slice became defined'))
                     res = [rc.content[0][0], rc.content[2][0]]
@@ -232,7 +234,8 @@ def gen_case(ctx):
                 s1, s2 = [c for t, c in enumerate(il) if t != i], [c for t, c in enumerate(il) if t != j]
             for m, s in zip(members[:2], (s1, s2)):
                 m[:] = [{'name': c0['name'], 'idl': list(s), 'samples': [float(v).hex() for v in gen_data(rng, nprng, len(s), 'white') + 2.0]}]
-        return {'kind': 'reweight', 'w': w, 'obs': members, 'all_configs': rng.random() < 0.5, 'via': rng.choice(['list', 'list', 'method', 'corr'])}
+        return {'kind': 'reweight', 'w': w, 'obs': members, 'all_configs': rng.random() < 0.5, 'via': rng.choice(['list', 'list', 'method', 'corr']),
+                'ac_form': rng.choice([None, None, 'np', 'int', 'npany'])}
     if k < 0.55:
         w = gen_weight(rng, nprng)
         o = gen_sub(rng, nprng, w)
